@@ -503,6 +503,15 @@ def r_chase_calls(cx):
         ok_l = loc[0] == "call" and isinstance(loc[1], str) and loc[1].endswith("split_into_parameters")
         n += 1
         ok = ok_g and ok_l
+        # `key=$name` without a caller value for `name` is an error: the Err of chase is handed on with `?`, not
+        # discarded (`if let Ok(Some(v)) = chase(..)` would let the operator's default stand in silently)
+        tried = any((tt.get("callee") or "").endswith("Try::branch") and
+                    mir.strip_refs(f.arg_terms(b2)[0])[0] == "call" and mir.strip_refs(f.arg_terms(b2)[0])[3] == bb
+                    for b2, tt in f.calls())
+        cx.ob("R-CHASE-CALLS", "new/chase%d/error-propagated" % (n - 1), tried,
+              "the error of this look-up is handed on with `?`" if tried else
+              "ParsedParameters::new discards the error of a chase(..): a `$name` that the caller did not supply is no longer "
+              "an error for this parameter type - the operator's default is used silently", cx.where(t["span"]))
         cx.ob("R-CHASE-CALLS", "new/chase%d" % (n - 1), ok,
               "chase(globals, &locals, key): caller values first, step-local values second (later entries win)" if ok else
               "this call of chase does not pass (globals, &locals, ..): %s" % (
